@@ -1,0 +1,12 @@
+//go:build verif
+
+package websocket
+
+import "github.com/talostrading/sonic"
+
+// VerifAttach attaches an already established transport to the stream and marks it active, exactly as the in-package
+// tests do through the unexported state/init. It exists only under the `verif` build tag, for the verification harness.
+func (s *Stream) VerifAttach(stream sonic.Stream) error {
+	s.state = StateActive
+	return s.init(stream)
+}
